@@ -13,13 +13,19 @@ package rruntime
 // The declaration accepted by UpdateInputs must therefore be a private snapshot: a slice the
 // controller cannot reach (it keeps the one it passed in), holding exactly the accepted inputs.
 //@ func (*Adapter).UpdateInputs
-//@   props C08
+//@   props C08 C17
 //@   modifies dbWrites, adapter.StateAdapter.Inputs, elems(deps)
 //@   requires [wired] adapter != nil && adapter.depDB != nil && adapter.watchFunc != nil
 //@   ensures [declared-inputs-are-a-private-snapshot] result == nil ==> len(adapter.Inputs) == len(deps) && (len(deps) > 0 ==> fresh(adapter.Inputs)) &&
 //@     (forall k int :: 0 <= k && k < len(deps) ==> adapter.Inputs[k] == deps[k])
+// C08 / C17: an update that is refused leaves the declared inputs as they were, and a declaration
+// with an input kind that plain controllers may not use is refused before anything is changed.
+//@   ensures [rejected-update-keeps-declared-inputs] result != nil ==> adapter.Inputs == old(adapter.Inputs)
+//@   at return #1
+//@     assert [unsupported-input-kind-rejected-before-any-change] dbWrites == old(dbWrites) && adapter.Inputs == old(adapter.Inputs)
 //@   loop #2
 //@     invariant [cursors] 0 <= i && 0 <= j && adapter != nil && adapter.depDB != nil && adapter.watchFunc != nil
+//@     invariant [declared-inputs-untouched-so-far] adapter.Inputs == old(adapter.Inputs)
 // The wiring fields are assigned once in NewAdapter; the callees below (dependency database, watch
 // filter bookkeeping, the runtime's watch callback) are not under contract, so that they leave the
 // wiring alone is an assumption.
@@ -27,14 +33,20 @@ package rruntime
 //@     assume_result [wiring-kept] adapter.depDB != nil && adapter.watchFunc != nil
 //@   at DeleteControllerInput #1
 //@     assume_result [wiring-kept] adapter.depDB != nil && adapter.watchFunc != nil
-//@   at deleteWatchFilter #1
-//@     assume_result [wiring-kept] adapter.depDB != nil && adapter.watchFunc != nil
 //@   at AddControllerInput #1
 //@     assume_result [wiring-kept] adapter.depDB != nil && adapter.watchFunc != nil
-//@   at addWatchFilter #1
-//@     assume_result [wiring-kept] adapter.depDB != nil && adapter.watchFunc != nil
 //@   at watchFunc #1
-//@     assume_result [wiring-kept] adapter.depDB != nil && adapter.watchFunc != nil
+//@     assume_result [wiring-kept] adapter.depDB != nil && adapter.watchFunc != nil && adapter.Inputs == old(adapter.Inputs)
+//@
+// The watch-filter bookkeeping touches nothing but the filter map.
+//@ func (*Adapter).addWatchFilter
+//@   props C08 C17
+//@   requires [adapter] adapter != nil
+//@   modifies adapter.watchFilters
+//@ func (*Adapter).deleteWatchFilter
+//@   props C08 C17
+//@   requires [adapter] adapter != nil
+//@   modifies adapter.watchFilters
 //@
 // C17: a rejected registration has no effect on the dependency database. dbWrites is the ghost
 // counter of accepted database changes (pkg/controller/runtime/internal/dependency).
